@@ -48,23 +48,21 @@ def scenario(name, osteps, tags=None, log_reads=False, nodes_mut=None):
 
 
 # ---------------------------------------------------------------------------------------------- model behaviour -> steps
-def _calls(e, inv):
-    """API calls of one model event inside invocation `inv`: (hook call, fault spec builder)."""
+def _calls(e, inv, world):
+    """API calls of one model event inside invocation `inv`: (the call environment hooks attach to, candidate fault specs).
+    world: which nodes carry the taint / the condition so far (a patch is only issued when something changes)."""
     a, n, actor = e["a"], e["x"], ACTOR[inv["kind"]]
     if a in ("Taint", "Untaint", "CleanTaint"):
         first = {"actor": actor, "verb": "get", "kind": "Node", "name": n, "sub": "", "nth": 1}
-        flt = [{"actor": actor, "verb": "patch", "kind": "Node", "name": n, "sub": "", "nth": 0, "err": "Server"},
-               {"actor": actor, "verb": "get", "kind": "Node", "name": n, "sub": "", "nth": 0, "err": "Server"}]
-        if a == "CleanTaint":
-            flt = flt[1:]     # an untainted outdated node is only read
+        flt = [{"actor": actor, "verb": "get", "kind": "Node", "name": n, "sub": "", "nth": 0, "err": "Server"}]
+        if (a == "Taint") != (n in world["tainted"]):
+            flt.append({"actor": actor, "verb": "patch", "kind": "Node", "name": n, "sub": "", "nth": 0, "err": "Server"})
         return first, flt
     if a in ("SetReason", "ClearReason", "CleanReason"):
-        nth = 1
-        first = {"actor": actor, "verb": "get", "kind": "NodeClaim", "name": claim(n), "sub": "", "nth": nth}
-        flt = [{"actor": actor, "verb": "patch", "kind": "NodeClaim", "name": claim(n), "sub": "status", "nth": 0, "err": "Server"},
-               {"actor": actor, "verb": "get", "kind": "NodeClaim", "name": claim(n), "sub": "", "nth": 0, "err": "Server"}]
-        if a == "CleanReason":
-            flt = flt[1:]
+        first = {"actor": actor, "verb": "get", "kind": "NodeClaim", "name": claim(n), "sub": "", "nth": 1}
+        flt = [{"actor": actor, "verb": "get", "kind": "NodeClaim", "name": claim(n), "sub": "", "nth": 0, "err": "Server"}]
+        if a == "SetReason" or n in world["reason"]:
+            flt.append({"actor": actor, "verb": "patch", "kind": "NodeClaim", "name": claim(n), "sub": "status", "nth": 0, "err": "Server"})
         return first, flt
     if a == "CreateRepl":
         inv["creates"] += 1
@@ -86,11 +84,13 @@ def translate(beh, rng):
     if not isinstance(h, list):
         h = []
     steps, inv = [], None
+    world = {"tainted": set(), "reason": set()}
+    order = collections.defaultdict(dict)    # command -> model replacement index -> arrival order of its successful create
 
     def env_step(e):
         if e["a"] == "Tick":
             return {"a": "Tick", "d": rng.choice(TICKS)}
-        return {"a": e["a"], "cmd": e["k"], "i": int(e["x"]) - 1}
+        return {"a": e["a"], "cmd": e["k"], "i": order[e["k"]].get(e["x"], 9)}
 
     def close():
         nonlocal inv
@@ -123,9 +123,20 @@ def translate(beh, rng):
         elif inv is not None:
             if e["f"] == "skip":
                 continue
-            first, faults = _calls(e, inv)
+            first, faults = _calls(e, inv, world)
             if first is None:
                 continue      # in-memory step (EndMark, Mark, Enqueue, EndObserve, Complete ...)
+            if e["f"] == "ok":
+                if a == "Taint":
+                    world["tainted"].add(e["x"])
+                elif a in ("Untaint", "CleanTaint"):
+                    world["tainted"].discard(e["x"])
+                elif a == "SetReason":
+                    world["reason"].add(e["x"])
+                elif a in ("ClearReason", "CleanReason"):
+                    world["reason"].discard(e["x"])
+                elif a == "CreateRepl":
+                    order[e["k"]][e["x"]] = len(order[e["k"]])
             if inv["pending"]:
                 inv["step"].setdefault("at", []).append(dict(first, steps=inv["pending"]))
                 inv["pending"] = []
